@@ -283,6 +283,24 @@ def oracle_c11(v):
     for s in range(v.n):
         if s not in just and v.first(1, s) is not None:
             bad.append(('setup-task-not-lazy', 'task %d processed although it is neither in the dependency closure of the selection nor the setup-task of a task that was going to run' % s))
+    # ... and not on behalf of a requirer that can no longer execute because ANOTHER of its setup-tasks already
+    # failed / is ignored when this one is first looked at (the requirer will be reported unmet / ignored)
+    nonsetup_closure = set(v.case['selected'])
+    todo = list(nonsetup_closure)
+    while todo:
+        t = todo.pop()
+        for d in v.non_setup_deps(t):
+            if d not in nonsetup_closure:
+                nonsetup_closure.add(d); todo.append(d)
+    for s in range(v.n):
+        if s in nonsetup_closure or s not in firstpos or not requirers.get(s):
+            continue
+        p0 = firstpos[s]
+        def doomed(r):
+            return any(s2 != s and any(e[0] in (2, 4) and len(e) > 1 and e[1] == s2 for e in v.ev[:p0]) for s2 in v.setup.get(r, []))
+        live = [r for r in requirers[s] if r in just and setup_justified(s, r, just)]
+        if live and all(doomed(r) for r in live):
+            bad.append(('setup-task-for-doomed-requirer', 'setup-task %d was processed on behalf of task %s although another setup-task of it had already failed / is ignored: the requirer can only be reported unmet / ignored' % (s, sorted(live))))
     # a task starts only after its setup-tasks finished is C01; teardown discipline:
     td = [i for i, r in enumerate(v.rows) if r['teardown']]
     starts = [e[1] for e in v.ev if e[0] == v.start_code]
